@@ -427,7 +427,7 @@ def run(rng, res, tier, shard, nshards):
         hist = gen_history(rng, rng.randint(1, 40), start[0] == 'case')
         f = run_history_safe(start, hist, res)
         res.case(digest([start, hist]) if nontrivial(hist) else None)
-        if res.evaluations % 397 == 5:
+        if len(res.samples) < 3 and nontrivial(hist):
             res.sample({'start': start[0], 'history': hist[:12]})
         if f:
             small = shrink(start, hist, f[0])
